@@ -96,62 +96,64 @@ template<class VM, bool secure> inline void run_compiled_light(VM* vm, const voi
 	vm->execute();
 }
 
-// flags: any of the 12 flag sets (optionally | RANDOMX_FLAG_V2). Returns nullptr if creation failed.
-inline std::unique_ptr<Engine> make_engine(int flags, randomx_cache* cache, randomx_dataset* dataset) {
+// Binds the injection closures for the concrete VM class that randomx_create_vm instantiated (allocator policy A).
+template<class A> inline bool bind_engine(Engine& e, randomx_vm* vm, int flags) {
 	using namespace randomx;
+	bool full = flags & RANDOMX_FLAG_FULL_MEM, hard = flags & RANDOMX_FLAG_HARD_AES, jit = flags & RANDOMX_FLAG_JIT, sec = (flags & RANDOMX_FLAG_SECURE) && jit;
+	using IL1 = InterpretedLightVm<A, true>; using IL0 = InterpretedLightVm<A, false>; using IF1 = InterpretedVm<A, true>; using IF0 = InterpretedVm<A, false>;
+	using CL10 = CompiledLightVm<A, true, false>; using CL00 = CompiledLightVm<A, false, false>; using CL11 = CompiledLightVm<A, true, true>; using CL01 = CompiledLightVm<A, false, true>;
+	using CF10 = CompiledVm<A, true, false>; using CF00 = CompiledVm<A, false, false>; using CF11 = CompiledVm<A, true, true>; using CF01 = CompiledVm<A, false, true>;
+#define RXH_I(cond, TYPE) if (cond) { auto* p = static_cast<TYPE*>(vm); e.run = [p](const void* prog) { run_interpreted(p, prog); }; return true; }
+#define RXH_C(cond, TYPE, FN, SEC) if (cond) { auto* p = static_cast<TYPE*>(vm); e.run = [p](const void* prog) { FN<TYPE, SEC>(p, prog); }; return true; }
+	RXH_I(!jit && !full && !hard, IL1) RXH_I(!jit && !full && hard, IL0) RXH_I(!jit && full && !hard, IF1) RXH_I(!jit && full && hard, IF0)
+	RXH_C(jit && !full && !hard && !sec, CL10, run_compiled_light, false) RXH_C(jit && !full && hard && !sec, CL00, run_compiled_light, false)
+	RXH_C(jit && !full && !hard && sec, CL11, run_compiled_light, true) RXH_C(jit && !full && hard && sec, CL01, run_compiled_light, true)
+	RXH_C(jit && full && !hard && !sec, CF10, run_compiled, false) RXH_C(jit && full && hard && !sec, CF00, run_compiled, false)
+	RXH_C(jit && full && !hard && sec, CF11, run_compiled, true) RXH_C(jit && full && hard && sec, CF01, run_compiled, true)
+#undef RXH_I
+#undef RXH_C
+	return false;
+}
+
+// flags: any of the 12 flag sets, optionally | RANDOMX_FLAG_V2 | RANDOMX_FLAG_LARGE_PAGES. Returns nullptr if creation failed.
+inline std::unique_ptr<Engine> make_engine(int flags, randomx_cache* cache, randomx_dataset* dataset) {
 	std::unique_ptr<Engine> e(new Engine());
 	e->flags = flags;
 	bool full = flags & RANDOMX_FLAG_FULL_MEM;
 	e->vm = randomx_create_vm((randomx_flags)flags, full ? nullptr : cache, full ? dataset : nullptr);
 	if (!e->vm) return nullptr;
-	randomx_vm* vm = e->vm;
-	int k = flags & (RANDOMX_FLAG_FULL_MEM | RANDOMX_FLAG_JIT | RANDOMX_FLAG_HARD_AES | RANDOMX_FLAG_SECURE);
-	bool hard = flags & RANDOMX_FLAG_HARD_AES, jit = flags & RANDOMX_FLAG_JIT, sec = (flags & RANDOMX_FLAG_SECURE) && jit;
-	(void)k;
-#define RXH_CASE(cond, TYPE, FN) if (cond) { auto* p = static_cast<TYPE*>(vm); e->run = [p](const void* prog) { FN(p, prog); }; return e; }
-	RXH_CASE(!jit && !full && !hard, InterpretedLightVmDefault, run_interpreted)
-	RXH_CASE(!jit && !full && hard, InterpretedLightVmHardAes, run_interpreted)
-	RXH_CASE(!jit && full && !hard, InterpretedVmDefault, run_interpreted)
-	RXH_CASE(!jit && full && hard, InterpretedVmHardAes, run_interpreted)
-#define RXH_CASE2(cond, TYPE, FN, SEC) if (cond) { auto* p = static_cast<TYPE*>(vm); e->run = [p](const void* prog) { FN<TYPE, SEC>(p, prog); }; return e; }
-	RXH_CASE2(jit && !full && !hard && !sec, CompiledLightVmDefault, run_compiled_light, false)
-	RXH_CASE2(jit && !full && hard && !sec, CompiledLightVmHardAes, run_compiled_light, false)
-	RXH_CASE2(jit && !full && !hard && sec, CompiledLightVmDefaultSecure, run_compiled_light, true)
-	RXH_CASE2(jit && !full && hard && sec, CompiledLightVmHardAesSecure, run_compiled_light, true)
-	RXH_CASE2(jit && full && !hard && !sec, CompiledVmDefault, run_compiled, false)
-	RXH_CASE2(jit && full && hard && !sec, CompiledVmHardAes, run_compiled, false)
-	RXH_CASE2(jit && full && !hard && sec, CompiledVmDefaultSecure, run_compiled, true)
-	RXH_CASE2(jit && full && hard && sec, CompiledVmHardAesSecure, run_compiled, true)
-#undef RXH_CASE
-#undef RXH_CASE2
-	return nullptr;
+	bool ok = (flags & RANDOMX_FLAG_LARGE_PAGES) ? bind_engine<randomx::LargePageAllocator>(*e, e->vm, flags) : bind_engine<Alloc>(*e, e->vm, flags);
+	if (!ok) return nullptr;
+	return e;
 }
 
 // JIT internals of a compiled engine (translation state; used to localise failures and by C06/C07)
-inline randomx::JitCompilerX86* jit_of(Engine& e) {
+template<class A> inline randomx::JitCompilerX86* jit_of_t(Engine& e) {
 	using namespace randomx;
-	if (!(e.flags & RANDOMX_FLAG_JIT)) return nullptr;
-	// 'compiler' lives in CompiledVm<...>; all instantiations share the layout of the member, but take it by type
-	bool hard = e.flags & RANDOMX_FLAG_HARD_AES, sec = e.flags & RANDOMX_FLAG_SECURE, full = e.flags & RANDOMX_FLAG_FULL_MEM;
-	randomx_vm* vm = e.vm;
+	bool hard = e.flags & RANDOMX_FLAG_HARD_AES, sec = e.flags & RANDOMX_FLAG_SECURE, full = e.flags & RANDOMX_FLAG_FULL_MEM; randomx_vm* vm = e.vm;
 	if (full) {
-		if (!hard && !sec) return &static_cast<CompiledVmDefault*>(vm)->compiler;
-		if (hard && !sec) return &static_cast<CompiledVmHardAes*>(vm)->compiler;
-		if (!hard && sec) return &static_cast<CompiledVmDefaultSecure*>(vm)->compiler;
-		return &static_cast<CompiledVmHardAesSecure*>(vm)->compiler;
+		if (!hard && !sec) return &static_cast<CompiledVm<A, true, false>*>(vm)->compiler;
+		if (hard && !sec) return &static_cast<CompiledVm<A, false, false>*>(vm)->compiler;
+		if (!hard && sec) return &static_cast<CompiledVm<A, true, true>*>(vm)->compiler;
+		return &static_cast<CompiledVm<A, false, true>*>(vm)->compiler;
 	}
-	if (!hard && !sec) return &static_cast<CompiledLightVmDefault*>(vm)->compiler;
-	if (hard && !sec) return &static_cast<CompiledLightVmHardAes*>(vm)->compiler;
-	if (!hard && sec) return &static_cast<CompiledLightVmDefaultSecure*>(vm)->compiler;
-	return &static_cast<CompiledLightVmHardAesSecure*>(vm)->compiler;
+	if (!hard && !sec) return &static_cast<CompiledLightVm<A, true, false>*>(vm)->compiler;
+	if (hard && !sec) return &static_cast<CompiledLightVm<A, false, false>*>(vm)->compiler;
+	if (!hard && sec) return &static_cast<CompiledLightVm<A, true, true>*>(vm)->compiler;
+	return &static_cast<CompiledLightVm<A, false, true>*>(vm)->compiler;
+}
+inline randomx::JitCompilerX86* jit_of(Engine& e) {
+	if (!(e.flags & RANDOMX_FLAG_JIT)) return nullptr;
+	return (e.flags & RANDOMX_FLAG_LARGE_PAGES) ? jit_of_t<randomx::LargePageAllocator>(e) : jit_of_t<Alloc>(e);
 }
 
 // decoded bytecode of an interpreter engine (translation state of the interpreter)
 inline randomx::InstructionByteCode* bytecode_of(Engine& e) {
 	using namespace randomx;
 	if (e.flags & RANDOMX_FLAG_JIT) return nullptr;
-	if (e.flags & RANDOMX_FLAG_HARD_AES) return static_cast<InterpretedVm<Alloc, false>*>(e.vm)->bytecode;
-	return static_cast<InterpretedVm<Alloc, true>*>(e.vm)->bytecode;
+	bool hard = e.flags & RANDOMX_FLAG_HARD_AES;
+	if (e.flags & RANDOMX_FLAG_LARGE_PAGES) return hard ? static_cast<InterpretedVm<LargePageAllocator, false>*>(e.vm)->bytecode : static_cast<InterpretedVm<LargePageAllocator, true>*>(e.vm)->bytecode;
+	return hard ? static_cast<InterpretedVm<Alloc, false>*>(e.vm)->bytecode : static_cast<InterpretedVm<Alloc, true>*>(e.vm)->bytecode;
 }
 
 // ------------------------------------------------------------------ instruction words and program buffers
@@ -185,7 +187,10 @@ inline std::vector<uint32_t> imm_set(bool thorough) {
 	// B0: one or two values per case split
 	for (uint32_t x : { 0u, 1u, 2u, 3u, 13u, 14u, 31u, 32u, 63u, 64u, 65u, 77u, 0x7FFFFFFFu, 0x80000000u, 0x80000001u, 0xFFFFFFFFu, 0xFFFFFFFEu,
 		0x100u, 0x8000u, 0x10000u, 0x7FFu, 0x800u, 0xFFFu, 0x1000u, 0xFFFFu, 0xFFF000u, 0xFFFFFFu, 0x1000000u, 0xFF000001u,
-		0xFFFFF7FFu, 0xFFFFF800u, 0x00FFFF00u, 0xFF0000FFu, 16376u, 16384u, 2097144u, 2097152u, 0x12345678u, 0xDEADBEEFu, 3234567890u, 0x55555555u }) add(x);
+		0xFFFFF7FFu, 0xFFFFF800u, 0x00FFFF00u, 0xFF0000FFu, 16376u, 16384u, 2097144u, 2097152u, 0x12345678u, 0xDEADBEEFu, 3234567890u, 0x55555555u,
+		// two's-complement boundaries of 8- and 16-bit immediate/displacement forms: no translator uses such forms today, but
+		// a size optimisation would introduce exactly these case splits (x86 disp8/imm8, A64 imm12, RV64 compressed immediates)
+		0x7Fu, 0x80u, 0x81u, 0xFFu, 0xFFFFFF80u, 0xFFFFFF7Fu, 0x7FFFu, 0xFFFF8000u }) add(x);
 	if (!thorough) return v;
 	for (int k = 1; k <= 32; ++k) { uint64_t p = 1ull << k; add(p - 1); add(p); add(p + 1); add((1ull << 32) - p); add((1ull << 32) - p - 1); add((1ull << 32) - p + 1); }
 	for (uint32_t x : { 4u, 5u, 6u, 7u, 8u, 9u, 12u, 33u, 62u, 16392u, 262136u, 262144u, 262152u, 2097160u, 0x1001u, 0x1F7FFu, 0x1F800u, 0x1FFFFu, 0x20000u,
@@ -207,13 +212,22 @@ struct ProgBuf {
 };
 
 // Configuration blocks (16 entropy quadwords). id selects a member of a small alphabet.
-inline int n_config_blocks(bool thorough) { return thorough ? 8 : 3; }
+inline int n_config_blocks(bool thorough) { return thorough ? 12 : 6; }
 inline void set_config_block(ProgBuf& p, int id) {
 	static const uint64_t G1 = 0x243F6A8885A308D3ull, G2 = 0x13198A2E03707344ull, G3 = 0xA4093822299F31D0ull, G4 = 0x082EFA98EC4E6C89ull;
 	// A registers: entropy 0..7 ; ma: 8 ; mx: 10 ; address registers: 12 ; dataset offset: 13 ; eMask: 14,15
 	uint64_t a[8], ma, mx, ar, off, e0, e1;
 	for (int i = 0; i < 8; ++i) a[i] = G1 * (i + 1) ^ G2;
 	ma = G3; mx = G4; ar = id & 15; off = G2 ^ id; e0 = G1 ^ G4; e1 = G3 ^ G2;
+	// id 0..2: generic / all-zero / all-ones (max offset); 3..6: dataset-offset boundaries; 7..11: the remaining special blocks
+	if (id >= 7) id -= 4; else if (id >= 3) id += 5;   // -> internal numbering: 0..7 special blocks, 8..11 offset boundaries
+	if (id >= 8) {   // dataset-offset boundaries (in items): 8/16-bit immediate edges for translators that add the offset as an immediate
+		static const uint64_t offs[4] = { 128, 255, 127, 32768 }; off = offs[(id - 8) & 3]; ar = (uint64_t)(id & 15);
+		for (int i = 0; i < 8; ++i) p.set_entropy(i, a[i]);
+		p.set_entropy(8, ma); p.set_entropy(9, G1); p.set_entropy(10, mx); p.set_entropy(11, G2);
+		p.set_entropy(12, ar); p.set_entropy(13, off); p.set_entropy(14, e0); p.set_entropy(15, e1);
+		return;
+	}
 	switch (id & 7) {
 	case 0: break;
 	case 1: for (int i = 0; i < 8; ++i) a[i] = 0; ma = 0; mx = 0; ar = 5; off = 0; e0 = 0; e1 = 0; break;                    // exponent 0, fraction 0, offset 0
